@@ -506,7 +506,7 @@ func TestVerifC19(t *testing.T) {
 	}
 	c19NV = r.Pick(2, 3)
 	depth := r.Pick(9, 9)
-	r.Rule(fmt.Sprintf("BFS over histories of <= %d operations on a real layerDB over a recording MapDB, from %d pre-populated stores; alphabet (%d): Set/Delete of 2 buckets x 2 keys x values %q through the first-obtained or a freshly obtained bucket handle, Flush(true), Flush(false); after every operation every (bucket,key) is read (Get,Has, twice) through both handles and directly from the store. Distinct non-trivial = distinct canonical state (full internal layerDB state + store contents + handle kinds + model state); the search runs until no new state appears (fixpoint) or the depth bound", depth, r.Pick(2, 4), c19Ops(), c19Vals[:c19NV]))
+	r.Rule(fmt.Sprintf("BFS over histories of <= %d operations on a real layerDB over a recording MapDB, from %d pre-populated stores; alphabet (%d): Set/Delete of 2 buckets x 2 keys x values %q through the first-obtained or a freshly obtained bucket handle, Flush(true), Flush(false); after every operation every (bucket,key) is read (Get,Has, twice) through both handles and directly from the store. Distinct non-trivial = distinct canonical state (full internal layerDB state + store contents + handle kinds + model state); the search runs until no new state appears (fixpoint) or the depth bound", depth, r.Pick(1, 4), c19Ops(), c19Vals[:c19NV]))
 	r.Assume("the underlying store is the real MapDB and never fails; nothing else writes to it while the layer is open",
 		"states are de-duplicated on a 128-bit hash of the canonical state string",
 		"order of replay on commit (order of last modification) is checked although the statement only implies it",
@@ -516,7 +516,7 @@ func TestVerifC19(t *testing.T) {
 	debug.SetGCPercent(800)
 	roots := [][]byte{{0}, {1}, {2}, {3}}
 	if r.Quick() {
-		roots = [][]byte{{0}, {3}}
+		roots = [][]byte{{3}}
 	}
 	st := pbfs.Run(pbfs.Config{
 		Roots: roots, Ops: c19Ops(), MaxDepth: depth, Batch: 4096,
